@@ -285,7 +285,10 @@ def run(ctx):
             ev.append({'e': 'Call', 'key': f'{name}:apply(state={intern_v(before)}, cohort={cohorts[op["c"]]}, keys#{op["c"]})',
                        'out': intern_v(fingerprint(new) + '|' + diag_fp)})
           else:
-            if oi % 2 == 0:
+            if (oi + hi) % 3 == 2:
+              # fetched to the host leaf by leaf first (a pytree round trip), as is common before saving
+              restored = pickle.loads(pickle.dumps(jax.device_get(src)))
+            elif oi % 2 == 0:
               restored = pickle.loads(pickle.dumps(src))
             else:
               d = os.path.join(scratch_ckpt, f'{name.replace(":", "_")}_{hi}_{oi}')
